@@ -71,6 +71,12 @@ theorem corr_mul_exch (κ ψ : ℝ) :
   ext i j
   fin_cases i <;> fin_cases j <;> simp [Matrix.mul_apply, Fin.sum_univ_four] <;> ring
 
+/-- the corrections commute with the exchange pulse: the order in which the scheduler places them is immaterial -/
+theorem corr_exch_commute (κ ψ : ℝ) : corrU κ * exchU ψ = exchU ψ * corrU κ := by
+  rw [corrU_eq, exchU]
+  ext i j
+  fin_cases i <;> fin_cases j <;> simp [Matrix.mul_apply, Fin.sum_univ_four] <;> ring
+
 /-! ## special values -/
 
 theorem e_pi : e Real.pi = -1 := by unfold e; rw [mul_comm]; exact Complex.exp_pi_mul_I
